@@ -424,6 +424,10 @@ pub enum ByzShape {
     /// The reply is cut off after this many bytes (at least 1, less than the whole): an incomplete
     /// telegram stays in the receivers' buffers.
     Truncated(u8),
+    /// The next diagnostics reply claims that the station is ready for data exchange (no fault, no
+    /// parameter request, not 'not ready') whatever its real state; replies to other services
+    /// pass unchanged and leave the shape pending.
+    ReadyDiag,
     /// Diagnostics reply with these extended-diagnostics bytes.
     ExtDiag(Vec<u8>),
 }
